@@ -48,6 +48,7 @@ def sany(path):
     return True
 
 
+_RUNS = 0
 _COV_ACT = re.compile(r'^<(\w+) line \d+, col \d+ to line \d+, col \d+ of module (\w+)>: (\d+):(\d+)')
 
 
@@ -63,16 +64,19 @@ def run(module, cfg, workdir, workers=16, simulate=None, depth=None, seed=None, 
     srcdirs = [os.path.dirname(os.path.abspath(module))] + list(spec_dirs or []) + [SPEC_DIR, os.path.join(SPEC_DIR, 'mc'),
                                                                            os.path.join(SPEC_DIR, 'trace')]
     seen = set()
+    copied = set()
     for d in srcdirs:
         if d in seen or not os.path.isdir(d):
             continue
         seen.add(d)
         for f in glob.glob(os.path.join(d, '*.tla')):
             dst = os.path.join(workdir, os.path.basename(f))
-            if not os.path.exists(dst):
+            if os.path.abspath(f) != os.path.abspath(dst) and os.path.basename(f) not in copied:
                 shutil.copy(f, dst)
+                copied.add(os.path.basename(f))
     modname = os.path.basename(module)
-    shutil.copy(module, os.path.join(workdir, modname))
+    if os.path.abspath(module) != os.path.abspath(os.path.join(workdir, modname)):
+        shutil.copy(module, os.path.join(workdir, modname))
     cfgname = os.path.basename(cfg)
     if os.path.abspath(cfg) != os.path.abspath(os.path.join(workdir, cfgname)):
         shutil.copy(cfg, os.path.join(workdir, cfgname))
@@ -81,7 +85,10 @@ def run(module, cfg, workdir, workers=16, simulate=None, depth=None, seed=None, 
         jvm.append('-Dtlc2.tool.queue.IStateQueue=StateDeque')
     if heap:
         jvm.append('-Xmx%s' % heap)
-    cmd = java_cmd(jvm) + ['tlc2.TLC', '-workers', str(workers), '-metadir', os.path.join(workdir, 'meta'),
+    global _RUNS
+    _RUNS += 1
+    metadir = os.path.join(workdir, 'meta%d' % _RUNS)
+    cmd = java_cmd(jvm) + ['tlc2.TLC', '-workers', str(workers), '-metadir', metadir,
                            '-noGenerateSpecTE', '-config', cfgname]
     if coverage and not simulate:
         cmd += ['-coverage', '1']
@@ -113,7 +120,7 @@ def run(module, cfg, workdir, workers=16, simulate=None, depth=None, seed=None, 
         r.error = 'timeout after %ss' % timeout
         subprocess.run(['pkill', '-f', 'tlc2[.]TLC.*' + re.escape(workdir)], check=False)
     r.wall = time.time() - t0
-    shutil.rmtree(os.path.join(workdir, 'meta'), ignore_errors=True)
+    shutil.rmtree(metadir, ignore_errors=True)
     _parse(r)
     return r
 
@@ -219,3 +226,45 @@ def find_prints(out, tag):
             pass
         pos = j
     return res
+
+
+def write_mc(workdir, base, name, consts, spec='Spec', invariants=(), properties=(), post=None, constraint=None,
+             view=None, extra_defs='', extends=(), deadlock=False, action_constraint=None):
+    """Write MC module `name`.tla (EXTENDS base) + `name`.cfg in workdir. consts: {CONST: python value or raw str}.
+
+    Values that are python objects are rendered with tla.to_tla; strings starting with '=' are raw TLA text.
+    Returns (module path, cfg path).
+    """
+    os.makedirs(workdir, exist_ok=True)
+    lines = ['---- MODULE %s ----' % name, 'EXTENDS %s' % ', '.join([base] + list(extends))]
+    cfg = ['SPECIFICATION %s' % spec, 'CONSTANTS']
+    for k, v in consts.items():
+        if isinstance(v, str) and v.startswith('='):
+            txt = v[1:]
+        else:
+            txt = tla.to_tla(v)
+        lines.append('MC_%s == %s' % (k, txt))
+        cfg.append('  %s <- MC_%s' % (k, k))
+    if extra_defs:
+        lines.append(extra_defs)
+    lines.append('====')
+    for i in invariants:
+        cfg.append('INVARIANT %s' % i)
+    for p in properties:
+        cfg.append('PROPERTY %s' % p)
+    if constraint:
+        cfg.append('CONSTRAINT %s' % constraint)
+    if action_constraint:
+        cfg.append('ACTION_CONSTRAINT %s' % action_constraint)
+    if view:
+        cfg.append('VIEW %s' % view)
+    if post:
+        cfg.append('POSTCONDITION %s' % post)
+    cfg.append('CHECK_DEADLOCK %s' % ('TRUE' if deadlock else 'FALSE'))
+    mp = os.path.join(workdir, name + '.tla')
+    cp = os.path.join(workdir, name + '.cfg')
+    with open(mp, 'w') as f:
+        f.write('\n'.join(lines) + '\n')
+    with open(cp, 'w') as f:
+        f.write('\n'.join(cfg) + '\n')
+    return mp, cp
